@@ -76,13 +76,17 @@ impl Check for SpscCheck {
         vec!["fault:preempt", "fault:timeout_fired", "read_and_write_window_live_together", "producer_saw_full", "consumer_saw_empty", "wrapped"]
     }
     fn run(&self, src: &mut Src, ctx: &mut RunCtx) -> RunResult {
-        let pages = *src.pick(&[1usize, 1, 2, 3]);
-        let total: u64 = match src.below(4) {
+        let deep = crate::engine::deep();
+        let pages = if deep { *src.pick(&[1usize, 1, 2, 3, 5, 8]) } else { *src.pick(&[1usize, 1, 2, 3]) };
+        let total: u64 = match src.below(if deep { 5 } else { 4 }) {
             0 => src.range(1, 50) as u64,
             1 => src.range(50, 400) as u64,
             2 => (pages * 1024 + src.below(40)) as u64,
-            _ => (pages * 1024 * 2 + src.below(500)) as u64,
+            3 => (pages * 1024 * 2 + src.below(500)) as u64,
+            _ => (pages * 1024 * 4 + src.below(3000)) as u64,
         };
+        // Step budget in proportion to the work (60k steps cover 6644 samples).
+        let budget_steps = 60_000 * (1 + total / 6000);
         let off = match src.below(4) {
             0 => 0,
             1 => pages * 1024 - 1,
@@ -90,7 +94,7 @@ impl Check for SpscCheck {
             _ => src.below(pages * 1024),
         };
         let small_chunks = src.chance(1, 2);
-        let cfg = SchedCfg::draw(src, 60_000, false);
+        let cfg = SchedCfg::draw(src, budget_steps, false);
         let fair = cfg.fair();
         let verbose = ctx.verbose;
         ctx.ev(|| format!("C03 total={total} pages={pages} offset={off} small_chunks={small_chunks} cfg={cfg:?}"));
@@ -345,8 +349,10 @@ impl Check for EosCheck {
     }
     fn run(&self, src: &mut Src, ctx: &mut RunCtx) -> RunResult {
         let kind = *src.pick(&[EosKind::ReaderWaits, EosKind::ReaderEofPoll, EosKind::WriterWaits, EosKind::NcReaderWaits, EosKind::NcReaderEofPoll, EosKind::NcWriterWaits]);
-        let pieces = src.below(5);
-        let piece_sizes: Vec<usize> = (0..pieces).map(|_| src.range(1, 6)).collect();
+        let deep = crate::engine::deep();
+        let pieces = src.below(if deep { 13 } else { 5 });
+        let big = deep && src.chance(1, 3);
+        let piece_sizes: Vec<usize> = (0..pieces).map(|_| src.range(1, if big { 60 } else { 6 })).collect();
         let total: usize = piece_sizes.iter().sum();
         let need = match src.below(5) {
             0 => 1,
@@ -355,7 +361,7 @@ impl Check for EosCheck {
             3 => 5000, // more than the capacity of a one-page u32 stream
             _ => src.range(1, 8),
         };
-        let cfg = SchedCfg::draw(src, 20_000, false);
+        let cfg = SchedCfg::draw(src, if deep { 60_000 } else { 20_000 }, false);
         let fair = cfg.fair();
         ctx.ev(|| format!("C04 kind={kind:?} pieces={piece_sizes:?} need={need} cfg={cfg:?}"));
         if ctx.sample.is_none() {
@@ -731,7 +737,7 @@ pub enum C07Mode {
 /// Shared by C05 and the MTGraph leg of C07.
 pub fn mtgraph_run(src: &mut Src, ctx: &mut RunCtx, prop: &'static str, c07: Option<C07Mode>) -> RunResult {
     let small = *src.pick(&SMALL_SIZES);
-    let mut recipe = gen_recipe(src, small, if c07.is_some() { 3 } else { 6 });
+    let mut recipe = gen_recipe(src, small, if c07.is_some() { 3 } else if crate::engine::deep() { 9 } else { 6 });
     let mut fail_pos = None;
     match &c07 {
         Some(C07Mode::Cancel) => {
